@@ -186,6 +186,11 @@ func (e *Enc) applyCall(name, kind string, fn *ssa.Function, fc *FuncContract, c
 	if mc, ok := c.Value.(*ssa.MakeClosure); ok && fn != nil {
 		for i, b := range mc.Bindings {
 			if i < len(fn.FreeVars) {
+				// a captured variable: the name denotes its content (as inside the closure's own contract)
+				if bv := e.valOf(b); bv.Addr != nil && bv.Addr.Kind == "cv" {
+					env.vars[fn.FreeVars[i].Name()] = TV{T: Select(e.heapGet(pre, bv.Addr.Key), bv.Addr.Base), Typ: bv.Addr.Elem}
+					continue
+				}
 				env.vars[fn.FreeVars[i].Name()] = TV{T: e.termOf(b), Typ: b.Type()}
 			}
 		}
@@ -288,7 +293,9 @@ func (e *Enc) applyCall(name, kind string, fn *ssa.Function, fc *FuncContract, c
 	} else {
 		mod = e.callMod(c)
 	}
+	e.unbalancedCallee = fc != nil && fc.Flags["unbalanced"]
 	e.havocForCall(mod, instrOf(c, e.curBlock), args)
+	defer func() { e.unbalancedCallee = false }()
 	for _, pa := range precise {
 		old := e.heapGet(e.cur, pa.key)
 		fv := e.fresh("assigned", arrayElemSort(old.Sort))
@@ -753,7 +760,7 @@ func (e *Enc) fnEnv(st *State) *Env {
 	// uniquely named SSA values
 	for name, vs := range e.names {
 		if len(vs) == 1 {
-			if v, ok := e.vals[vs[0]]; ok && v.Addr == nil && v.Tuple == nil {
+			if v, ok := e.vals[vs[0]]; ok && v.Addr == nil && v.Tuple == nil && e.inScope(vs[0]) {
 				env.vars[name] = TV{T: v.T, Typ: vs[0].Type()}
 			}
 		}
@@ -765,7 +772,7 @@ func (e *Enc) fnEnv(st *State) *Env {
 			if !ok {
 				break
 			}
-			if v, ok := e.vals[phi]; ok && phi.Comment != "" {
+			if v, ok := e.vals[phi]; ok && phi.Comment != "" && e.inScope(phi) {
 				if _, dup := env.vars[phi.Comment]; !dup {
 					env.vars[phi.Comment] = TV{T: v.T, Typ: phi.Type()}
 				}
@@ -863,7 +870,9 @@ func (e *Enc) loopHeader(b *ssa.BasicBlock, li *loopInfo, preds []*ssa.BasicBloc
 	private := e.loopPrivateAllocs(li)
 	for _, k := range e.expandKeys(li.mod) {
 		old, nw := e.havocKey(e.cur, k)
+		e.unbalancedCallee = li.directMod[k] // the loop body itself writes the field: nothing is known about it at the head
 		e.monotoneAssume(k, old, nw)
+		e.unbalancedCallee = false
 		e.initOnlyAssume(k, old, nw, nowBeforeLoop)
 		// objects of this function that stay private throughout the loop and are not written by it keep their fields
 		parts := strings.Split(k, "|")
@@ -1217,6 +1226,20 @@ func (e *Enc) checkPost(rets []retRec) {
 		e.obligeNamed(e.name+"/lock/balanced", "lock", "balanced", pos, g, []string{"C05", "C20"}, "locks held at return equal locks held at entry")
 		if e.fnFlag("singlecs") {
 			e.obligeNamed(e.name+"/lock/single-critical-section", "lock", "single-critical-section", pos, BoolLit(e.lockCount <= 1), []string{"C05", "C20"}, "the function takes its lock at most once (lookup and fill form one critical section)")
+		}
+	}
+	// preserved fields: a function that writes one restores it before returning (unless flagged unbalanced)
+	if !e.fnFlag("unbalanced") {
+		for tf, props := range e.p.Contracts.Preserved {
+			parts := strings.SplitN(tf, ".", 2)
+			key := "F|" + parts[0] + "|" + parts[1]
+			if !e.directStores[key] {
+				continue
+			}
+			g, _ := all(func(r retRec, env *Env) (Term, error) {
+				return Eq(e.heapGet(r.state, key), e.heapGet(e.entry, key)), nil
+			})
+			e.obligeNamed(e.name+"/preserved/"+tf, "preserved", tf, pos, g, props, "the function restores "+tf+" of every object before it returns")
 		}
 	}
 	// struct invariants of objects allocated here must hold when the function returns them
@@ -1594,6 +1617,13 @@ func (e *Enc) guardObligation(a *Addr, pos token.Pos, what string) {
 // monotoneAssume: a field declared `monotone T.f` only ever changes from false to true.
 func (e *Enc) monotoneAssume(key string, old, nw Term) {
 	parts := strings.Split(key, "|")
+	if len(parts) == 3 && parts[0] == "F" {
+		if _, ok := e.p.Contracts.Preserved[parts[1]+"."+parts[2]]; ok && !e.unbalancedCallee {
+			// a preserved field: the callee (or loop iteration) restores it
+			e.assert(Eq(nw, old))
+			return
+		}
+	}
 	if len(parts) != 3 || parts[0] != "F" || !e.p.Contracts.Monotone[parts[1]+"."+parts[2]] {
 		return
 	}
@@ -1942,4 +1972,17 @@ func (e *Enc) callOrdinal(name string, at ssa.Instruction) int {
 		}
 	}
 	return -1
+}
+
+// inScope: the SSA value is defined at a point that dominates the block being encoded (a contract evaluated
+// here may refer to it by its source name).
+func (e *Enc) inScope(v ssa.Value) bool {
+	in, ok := v.(ssa.Instruction)
+	if !ok || e.curBlock == nil || in.Block() == nil {
+		return true
+	}
+	if in.Block().Parent() != e.curBlock.Parent() {
+		return true
+	}
+	return in.Block() == e.curBlock || in.Block().Dominates(e.curBlock)
 }
